@@ -260,7 +260,10 @@ pub struct Assembled {
 
 impl Assembled {
     pub fn ok(&self) -> bool {
-        self.parse_diags.is_empty() && self.diags.is_empty() && self.ctx.is_some()
+        self.parse_diags.is_empty()
+            && self.diags.is_empty()
+            && self.ctx.is_some()
+            && self.pass_verdict == PassVerdict::Ended
     }
     pub fn all_diags(&self) -> Vec<Diag> {
         let mut v = self.parse_diags.clone();
